@@ -264,13 +264,21 @@ class KexDH:  # pragma: nocover
             size = size - 8
         return size
 
+    # Converts the length in bytes of a key's modulus (or curve point coordinate) to the key size in bits.
+    @staticmethod
+    def __key_size(key_type: str, size: int) -> int:
+        # A coordinate of a point on the NIST P-521 curve takes 66 bytes, but the key size is 521 bits (not 528).
+        if key_type.startswith('ecdsa-sha2-nistp521') and size == 66:
+            return 521
+        return KexDH.__adjust_key_size(size)
+
     # Returns the hostkey type.
     def get_hostkey_type(self) -> str:
         return self.__hostkey_type
 
     # Returns the size of the hostkey, in bits.
     def get_hostkey_size(self) -> int:
-        return KexDH.__adjust_key_size(self.__hostkey_n_len)
+        return KexDH.__key_size(self.__hostkey_type, self.__hostkey_n_len)
 
     # Returns the CA type ('ssh-rsa', 'ssh-ed25519', etc).
     def get_ca_type(self) -> str:
@@ -278,7 +286,7 @@ class KexDH:  # pragma: nocover
 
     # Returns the size of the CA key, in bits.
     def get_ca_size(self) -> int:
-        return KexDH.__adjust_key_size(self.__ca_n_len)
+        return KexDH.__key_size(self.__ca_key_type, self.__ca_n_len)
 
     # Returns the size of the DH modulus, in bits.
     def get_dh_modulus_size(self) -> int:
